@@ -79,6 +79,24 @@ Proof.
   intros H. unfold read_at, resolve_all. rewrite (find_key_map _ _ _ (resolve_by_outcome_key st0 sp)), H. reflexivity.
 Qed.
 
+(* a record without an old lock is literally untouched in every reachable store *)
+Lemma untouched st0 sp st r0 : wf_store st0 -> InvP st0 sp st -> In r0 st0 -> old_lock sp r0 = false -> In r0 st.
+Proof.
+  intros Hwf HI Hin Ho. assert (Hk : In (k_key r0) (keys st)) by (rewrite (proj1 HI); apply in_map; exact Hin).
+  apply in_map_iff in Hk as (r & Hkr & Hinr). destruct (proj2 HI _ Hinr) as (r0' & Hin' & Hr).
+  assert (r0' = r0).
+  { apply (sorted_uniq _ (wf_sorted _ Hwf)); [exact Hin'|exact Hin|]. rewrite <- (rel0_key _ _ _ _ Hr). exact Hkr. }
+  subst r0'. destruct Hr as [->|[Hold _]]; [exact Hinr|congruence].
+Qed.
+Lemma read_at_inv st0 sp st k ts : wf_store st0 -> InvP st0 sp st ->
+  (forall r, find_key st0 k = Some r -> old_lock sp r = false) -> read_at st k ts = read_at st0 k ts.
+Proof.
+  intros Hwf HI H. unfold read_at. destruct (find_key st k) as [r|] eqn:E.
+  - destruct (InvP_find st0 sp Hwf _ _ _ HI E) as (r0 & Hf0 & Hin0 & Hr). rewrite Hf0.
+    destruct Hr as [->|[Hold _]]; [reflexivity|]. rewrite (H _ Hf0) in Hold; discriminate.
+  - rewrite (InvP_find_none st0 sp _ _ HI E). reflexivity.
+Qed.
+
 (* ------------------------------------------------------------------ the statements of Props.v *)
 From Verif Require Import RangeTask.ProofsPart RangeTask.ProofsDel.
 Lemma gc_no_old_lock : forall st0 sp limit s e fuel os st st' tr,
@@ -125,6 +143,34 @@ Proof.
   - intros p t Hid. apply (outcome_stable st0 sp Hwf st' p t HI' Hid).
   - intros -> ->. apply (whole_pass st0 sp Hwf st' HI'). intros r Hin. apply Hc; [exact Hin|].
     apply in_range_iff. split; [apply lex_nil_le|left; reflexivity].
+Qed.
+
+Lemma gc_safe_point_min expected granted : gc_safe_point expected granted = N.min expected granted.
+Proof. unfold gc_safe_point. destruct (granted <? expected) eqn:E; [apply N.ltb_lt in E|apply N.ltb_ge in E]; lia. Qed.
+Lemma gc_full_clamped : forall st0 expected granted limit fuel tasks st' sp',
+  wf_store st0 -> (0 < limit)%nat ->
+  Forall (fun t => Forall (oracle_ok st0 (gc_safe_point expected granted)) (snd t)) tasks ->
+  gc_full fuel expected granted limit tasks st0 = Some (st', sp') ->
+  sp' = N.min expected granted /\
+  (forall r0, In r0 st0 -> old_lock sp' r0 = false -> In r0 st') /\
+  (forall r, In r st' -> covered (map fst tasks) (k_key r) = true -> old_lock sp' r = false) /\
+  ((forall k, covered (map fst tasks) k = true) -> st' = resolve_all st0 sp').
+Proof.
+  intros st0 expected granted limit fuel tasks st' sp' Hwf Hl Hos. unfold gc_full.
+  destruct (gc_pass fuel (gc_safe_point expected granted) limit tasks st0) as [st1|] eqn:E; [|discriminate]. intros [= <- <-].
+  destruct (gc_pass_spec st0 _ limit fuel Hwf Hl tasks st0 st1 (InvP_init st0 _) Hos E) as (HI & _ & _).
+  destruct (gc_pass_no_old_lock st0 _ limit fuel tasks st1 Hwf Hl Hos E) as [G1 G2].
+  split; [apply gc_safe_point_min|]. split; [|split; assumption].
+  intros r0 Hin Ho. eapply untouched; eassumption.
+Qed.
+Lemma gc_pass_reads_kept : forall st0 sp limit fuel tasks st' k ts,
+  wf_store st0 -> (0 < limit)%nat -> Forall (fun t => Forall (oracle_ok st0 sp) (snd t)) tasks ->
+  gc_pass fuel sp limit tasks st0 = Some st' ->
+  (forall r, find_key st0 k = Some r -> old_lock sp r = false) -> read_at st' k ts = read_at st0 k ts.
+Proof.
+  intros st0 sp limit fuel tasks st' k ts Hwf Hl Hos E H.
+  destruct (gc_pass_spec st0 sp limit fuel Hwf Hl tasks st0 st' (InvP_init st0 sp) Hos E) as (HI & _ & _).
+  eapply read_at_inv; eassumption.
 Qed.
 
 (* ------------------------------------------------------------------ wf_storeb reflects wf_store *)
